@@ -97,6 +97,7 @@ def U_ZZ(t):  # exp(-i t/2 Z(x)Z): used for a *busy* (not parallelisable) native
 # gates declared as BusyGateDefinition (they count as using every qubit); never chosen by the program generators,
 # a check that wants one inserts it itself
 BUSY = {"GZZ"}
+STRETCH_SUFFIX = "_s"
 
 RAW = {
     "GZZ": ([("a", Q), ("b", Q), ("t", F)], U_ZZ),
@@ -168,7 +169,10 @@ def unitary(name, classical, variant="A"):
     """Independent evaluation of a gate matrix; None for idle / unitary-less gates."""
     if name.startswith("I_") or name in ("prepare_all", "measure_all"):
         return None
-    fn = VARIANTS[variant.rstrip("d")][name][1]
+    if name.endswith(STRETCH_SUFFIX):
+        # a stretched variant: the parent's matrix, whatever the trailing stretch factor
+        name, classical = name[: -len(STRETCH_SUFFIX)], classical[:-1]
+    fn = VARIANTS[variant.rstrip("ds")][name][1]
     if fn is None:
         return None
     return np.asarray(fn(*classical), dtype=complex)
